@@ -346,6 +346,36 @@ theorem joinFields_assoc {α : Type} (l m r : List (List α)) :
         | cons a as => exact ⟨a, as, rfl⟩
       rw [ha, joinFields_cons2, ← ha, ih]
 
+/-- `Phrase::append` denotes `joinFields` (all nine shape combinations) -/
+theorem append_toFields (a b : Phrase) :
+    (a.append b).toFields = joinFields a.toFields b.toFields := by
+  cases a with
+  | char l =>
+    cases b with
+    | char r => simp [Phrase.append, Phrase.toFields, joinFields]
+    | field r => simp [Phrase.append, Phrase.toFields, joinFields]
+    | full rs => cases rs <;> simp [Phrase.append, Phrase.toFields, joinFields]
+  | field l =>
+    cases b with
+    | char r => simp [Phrase.append, Phrase.toFields, joinFields]
+    | field r => simp [Phrase.append, Phrase.toFields, joinFields]
+    | full rs => cases rs <;> simp [Phrase.append, Phrase.toFields, joinFields]
+  | full ls =>
+    cases ls with
+    | nil =>
+      cases b with
+      | char r => simp [Phrase.append, Phrase.toFields, joinFields]
+      | field r => simp [Phrase.append, Phrase.toFields, joinFields]
+      | full rs => cases rs <;> simp [Phrase.append, Phrase.toFields, joinFields]
+    | cons lf ls =>
+      cases b with
+      | char r => simp [Phrase.append, Phrase.toFields, joinFields_cons_cons]
+      | field r => simp [Phrase.append, Phrase.toFields, joinFields_cons_cons]
+      | full rs =>
+        cases rs with
+        | nil => simp [Phrase.append, Phrase.toFields, joinFields_nil_right]
+        | cons rf rs => simp [Phrase.append, Phrase.toFields, joinFields_cons_cons]
+
 /-! ## Quote removal -/
 
 theorem skipQuotes_eq_filter (cs : List AttrChar) :
@@ -358,6 +388,14 @@ theorem strip_eq_map (cs : List AttrChar) : strip cs = cs.map (·.value) := by
   induction cs with
   | nil => rfl
   | cons c cs ih => simp [strip, ih]
+
+/-- quote removal of a parameter value's characters gives the value back -/
+theorem removeQuotes_toField (s : List Char) : removeQuotesAndStrip (toField s) = s := by
+  induction s with
+  | nil => rfl
+  | cons c t ih =>
+    simp only [removeQuotesAndStrip, toField] at ih
+    simp [removeQuotesAndStrip, toField, skipQuotes, strip, softChar, ih]
 
 theorem removeQuotesAndStrip_append (a b : List AttrChar) :
     removeQuotesAndStrip (a ++ b) = removeQuotesAndStrip a ++ removeQuotesAndStrip b := by
